@@ -211,6 +211,16 @@ func runStreamSets(family string, ops []ssop, prog []step) (fail, clause, key st
 			ids[l.ID()] = id
 		}
 		fmt.Fprintf(&b, "%d:o%d:%s", i, id, coll.RenderSS(*model[i]))
+		// which handles share one Go map, which per-key streams share a backing array (and their spare capacity)
+		if mp := l.MapID(); mp != 0 {
+			k := fmt.Sprintf("map@%d", mp)
+			mid, ok := ids[k]
+			if !ok {
+				mid = len(ids)
+				ids[k] = mid
+			}
+			fmt.Fprintf(&b, ":m%d", mid)
+		}
 		// which per-key streams are the same objects across stream sets
 		for _, k := range []string{"j", "k", "m"} {
 			if st := l.StreamAt(k); st != nil {
@@ -220,6 +230,15 @@ func runStreamSets(family string, ops []ssop, prog []step) (fail, clause, key st
 					ids[st.ID()] = sid
 				}
 				fmt.Fprintf(&b, "/%s=o%d", k, sid)
+				if first, capacity := st.Backing(); first != nil {
+					bk := fmt.Sprintf("arr@%p", first)
+					bid, ok := ids[bk]
+					if !ok {
+						bid = len(ids)
+						ids[bk] = bid
+					}
+					fmt.Fprintf(&b, "b%dc%d", bid, capacity-len(st.ToArray()))
+				}
 			}
 		}
 		b.WriteString(";")
